@@ -32,7 +32,7 @@ def ortho_case(draw):
     if d > 1 and draw(st.booleans()):
         # widen one bond well beyond what the neighbouring cores can support
         a['ranks'][draw(st.integers(1, d - 1))] = draw(st.sampled_from([4, 5, 6]))
-    klass = draw(st.sampled_from(['generic', 'generic', 'deficient', 'zero_core', 'aliased_cores']))
+    klass = draw(st.sampled_from(['generic', 'generic', 'deficient', 'zero_core', 'aliased_cores', 'nearly_orthonormal']))
     a['klass'] = klass
     a['which'] = draw(st.integers(0, d - 1))
     sweep = draw(st.sampled_from(['left', 'right', 'both']))
@@ -63,6 +63,15 @@ def make(spec):
         cores[i] = np.tensordot(f1, f2, axes=([3], [0]))
     elif spec['klass'] == 'zero_core':
         cores[i] = np.zeros_like(cores[i])
+    elif spec['klass'] == 'nearly_orthonormal' and not spec.get('int_dtype'):
+        # cores that are orthonormal only to single precision or up to a factor 1 + O(1e-6) (a train stored in float32 and read back,
+        # an orthonormal train that was rescaled): "processed cores are isometries up to ROUNDING" -- there is still work to do
+        qr = dense.qr_left if spec['which'] % 2 == 0 else dense.qr_right
+        cores = [np.array(c) for c in qr([np.array(c, dtype=complex if spec['cplx'] else float) for c in cores])]
+        if spec['seed'] % 2 == 0:
+            cores = [c.astype(np.complex64 if np.iscomplexobj(c) else np.float32).astype(c.dtype) for c in cores]
+        else:
+            cores = [c * (1.0 + 3e-6 * rng.uniform(-1, 1)) for c in cores]
     elif spec['klass'] == 'aliased_cores':
         # the same ndarray object is used for every core of equal shape (e.g. a product state built as TT([c] * d))
         seen = {}
@@ -145,10 +154,10 @@ def body_ortho(case):
 
 
 def nt(labels):
-    return bool({'deficient', 'zero_core', 'aliased_cores', 'overparam', 'complex', 'size1mode', 'partial', 'order1', 'mixed_size1'} & set(labels))
+    return bool({'deficient', 'zero_core', 'aliased_cores', 'nearly_orthonormal', 'overparam', 'complex', 'size1mode', 'partial', 'order1', 'mixed_size1'} & set(labels))
 
 
 SUBCHECKS = [
     Sub('ortho', ortho_case(), body_ortho, nt, quick=800, thorough=12000, shards_quick=8,
-        classes=['left', 'right', 'both', 'partial', 'deficient', 'zero_core', 'aliased_cores', 'overparam', 'complex', 'size1mode', 'order1']),
+        classes=['left', 'right', 'both', 'partial', 'deficient', 'zero_core', 'aliased_cores', 'nearly_orthonormal', 'overparam', 'complex', 'size1mode', 'order1']),
 ]
